@@ -4,6 +4,7 @@
    access table decided by vm_compute and compared with the Go race detector's reports. *)
 From Coq Require Import String.
 From Coq Require Import List ZArith Bool Arith.
+From TR Require Import model.GoSem model.Socket model.ConnExt translated.ConnLoop proofs.TieConn proofs.TieConnCorollaries.
 From TR Require Import model.Concurrent proofs.ConcurrentProofs model.GoSem model.Ring translated.FrameLoop proofs.TieRing.
 (* constants and wiring read from the Go sources on every run *)
 From TR Require Import proofs.FactsRing.
@@ -72,3 +73,37 @@ Theorem C16_source_Move_locked : forall (W : Type) (ext : string -> list arg -> 
                 ring_of fl' = move (ring_of fl) /\
                 FrameLoop_orderedFrames fl' = FrameLoop_orderedFrames fl /\ fl_wf fl'.
 Proof. exact @tie_Move. Qed.
+
+(* ---- source tie: the wiring, as cmd/thermal-recorder/main.go builds it now ----
+   coq/translated/ConnLoop.v is handleConn regenerated from the Go source on every run; proofs/TieConn.v proves the
+   log it produces for every connection (header, any stream, any script of Process results), and the wiring part of
+   that log has the shape below: ONE processor, given the parser frameParser chose; as motion recorder the file
+   recorder whose Stop is deferred, wrapped by the throttle exactly when it is activated; a continuous recorder of
+   its own exactly when configured; and for test recordings a plain file recorder of its own - not shared with the
+   motion or the continuous recorder, never throttled. *)
+Theorem C16_source_handleConn : forall cfg cs script i1 i2 fuel text rest h,
+  header_c (S (total_len cs)) cs [] = Some (text, rest) ->
+  c_decode cfg text = Some h ->
+  parser_of (h_brand h) (h_model h) <> 0 ->
+  5 <= h_fs h -> h_fps h <> 0 -> i1 <> 0 -> i2 <> 0 ->
+  (total_len rest < fuel)%nat ->
+  post (src_conn cfg fuel (conn_init cs script i1 i2))
+    (fun r w' =>
+       r = Some (end_err (S (total_len rest)) (Z.to_nat (h_fs h)) rest) /\ cw_in w' = [] /\
+       cw_log w' = prelude_log cfg (parser_of (h_brand h) (h_model h)) ++
+                   loop_log (proc_tok cfg) (frames_c (S (total_len rest)) (Z.to_nat (h_fs h)) rest) script ++
+                   [EStop REC_TOK]).
+Proof. exact tie_handleConn. Qed.
+
+Theorem C16_source_wiring : forall cfg parser,
+  let l := prelude_log cfg parser in
+  exists rec const snap tok,
+    filter (fun e => match e with ENewProcessor _ _ _ _ _ => true | _ => false end) l =
+      [ENewProcessor parser rec const snap tok] /\
+    In (ENewRecorder snap) l /\ snap <> REC_TOK /\ snap <> rec /\ snap <> const /\
+    ~ In (ESetConstant snap) l /\ (forall m t, ~ In (ENewThrottle snap m t) l) /\
+    (if c_throttle cfg then In (ENewThrottle REC_TOK (c_minsecs cfg + c_preview cfg) rec) l else rec = REC_TOK) /\
+    (if c_const cfg then In (ENewRecorder const) l /\ In (ESetConstant const) l /\ const <> REC_TOK /\ const <> rec
+     else const = 0) /\
+    hd_error l = Some (EAutoFFC true).
+Proof. exact wiring_facts. Qed.
